@@ -289,6 +289,10 @@ def vite(cond, a, b):
         return TupV([vite(cond, x, y) for x, y in zip(a, b)])
     if isinstance(a, NoneV) and isinstance(b, NoneV):
         return a
+    if isinstance(a, ObjV) and isinstance(b, ObjV) and a.cls == b.cls and callable(a.fields.get("__mk__")):
+        return a.fields["__mk__"](z3.If(cond, Z(a.fields["__id__"]), Z(b.fields["__id__"])))
+    if isinstance(a, SeqV) and isinstance(b, SeqV):
+        return SeqV(z3.If(cond, a.n, b.n), lambda i: vite(cond, a.at(i), b.at(i)), a.kind)
     raise Unsupported(f"if-then-else between {type(a).__name__} and {type(b).__name__}")
 
 
@@ -374,6 +378,8 @@ def veq(a, b):
         return z3.And(a.n == len(b), *[veq(a.at(k), y) for k, y in enumerate(b)])
     if isinstance(a, TupV) and isinstance(b, SeqV):
         return veq(b, a)
+    if isinstance(a, ObjV) and isinstance(b, ObjV) and "__id__" in a.fields and "__id__" in b.fields:
+        return Z(a.fields["__id__"]) == Z(b.fields["__id__"])
     if isinstance(a, SetV) and isinstance(b, SetV):
         if a.arity != b.arity:
             raise Unsupported("comparison of sets of different element shapes")
